@@ -14,6 +14,8 @@ PD=$(jq -r '.package_dir // empty' $SEED/meta.json 2>/dev/null)
 [ -n "$PD" ] && PKG=${PD#./}
 git apply $SEED/patch.diff || { echo "patch does not apply" > $SEED/log/confirm.txt; exit 1; }
 if [ -z "${SKIP_CONFIRM:-}" ]; then
+# the repository tests bind fixed ports: one confirmation at a time
+exec 9>/tmp/seedtest.lock; flock 9
 go build ./... > $SEED/log/build.txt 2>&1 && echo "build: ok" > $SEED/log/confirm.txt || echo "build: FAILED" > $SEED/log/confirm.txt
 go test -vet=off -count=1 ./... > $SEED/log/tests_with_change.txt 2>&1 && echo "existing tests with change: pass" >> $SEED/log/confirm.txt || echo "existing tests with change: FAIL" >> $SEED/log/confirm.txt
 if [ -n "$DEMO" ]; then
@@ -24,6 +26,7 @@ if [ -n "$DEMO" ]; then
   rm -f $WT/$PKG/zz_seed_demo_test.go
   git apply $SEED/patch.diff
 fi
+flock -u 9
 else
   grep -v "^check " $SEED/log/confirm.txt > $SEED/log/confirm.tmp; mv $SEED/log/confirm.tmp $SEED/log/confirm.txt
 fi
